@@ -18,6 +18,10 @@
                            `evaluate_models_searchlight` as coded: `for x in sl_RDM` (legacy
                            `__getitem__` iteration of `RDMs`) builds one task per row, joblib `par`
                            is a parameter (`parCollect`: slot per task under a completion order)
+    * `EvalArgs`, `fwdKw`, `callEvalAt`, `callSite`, `nCallSites`, `callEval`, `evalSearchlightKw`
+                           (round 6) the task record `(models, method, theta)` and the keywords every
+                           call site of `eval_function` forwards (`Gen.C19.evalCallSites` /
+                           `evalFwdMethod` / `evalFwdTheta`), for an arbitrary dispatch of tasks to call sites
     * `linspacePts`, `ptsOkB`
                            the split points as numpy computes them (IEEE doubles, executed only) and
                            the executable admissibility check
@@ -253,6 +257,49 @@ def evalSearchlight {α γ δ : Type} (par : List (List α × Nat) → (List α 
     stored in the slot of its task index (`none` = a slot never filled) -/
 def parCollect {τ γ : Type} (sched : List Nat) (tasks : List τ) (f : τ → γ) : List (Option γ) :=
   (collect tasks.length (fun i => (tasks[i]?).map f) sched).map Option.join
+
+/-! ### `evaluate_models_searchlight`: the keywords every call site forwards (round 6) -/
+
+/-- the task record: what the caller hands to `evaluate_models_searchlight` besides the RDMs
+    (`models`, `method`, `theta`; `Θ` is typically an `Option`, `none` = Python's `None`) -/
+structure EvalArgs (M Me Θ : Type) where
+  models : M
+  method : Me
+  theta : Θ
+
+/-- a keyword at a call site: forwarded (`kw=kw`: the caller's value reaches the evaluation
+    function) or not mentioned (the evaluation function's own default applies) -/
+def fwdKw {κ : Type} (forwarded : Bool) (given dflt : κ) : κ := if forwarded then given else dflt
+
+/-- one call `eval_function(models, x, …)` through a call site that forwards
+    `site = (method forwarded, theta forwarded)`; `dMethod`, `dTheta` are the defaults in the
+    signature of the evaluation function (arbitrary) -/
+def callEvalAt {M Me Θ τ γ : Type} (site : Bool × Bool) (evalFn : M → τ → Me → Θ → γ)
+    (dMethod : Me) (dTheta : Θ) (a : EvalArgs M Me Θ) (x : τ) : γ :=
+  evalFn a.models x (fwdKw site.1 a.method dMethod) (fwdKw site.2 a.theta dTheta)
+
+/-- number of call sites of `eval_function` in the source of `evaluate_models_searchlight`
+    (regenerated; serial / parallel paths, `partial` / `delayed` wrappers resolved) -/
+def nCallSites : Nat := Rsa.Gen.C19.evalCallSites
+
+/-- call site number `k` of the source: which of `method=method`, `theta=theta` it forwards
+    (regenerated; `false` beyond the last call site: fail closed) -/
+def callSite (k : Nat) : Bool × Bool := (Rsa.Gen.C19.evalFwdMethod k, Rsa.Gen.C19.evalFwdTheta k)
+
+/-- one call of the evaluation function through call site `k` of the source -/
+def callEval {M Me Θ τ γ : Type} (evalFn : M → τ → Me → Θ → γ) (dMethod : Me) (dTheta : Θ)
+    (a : EvalArgs M Me Θ) (k : Nat) (x : τ) : γ :=
+  callEvalAt (callSite k) evalFn dMethod dTheta a x
+
+/-- `evaluate_models_searchlight(sl_RDM, models, eval_function, method, theta, n_jobs)` as coded,
+    keywords included: one task per `x in sl_RDM`; the task of `x` in a run with `nJobs` jobs goes
+    through call site `route nJobs x` (an **arbitrary** dispatch: the source may branch on
+    `n_jobs` or on anything else); `par nJobs` is joblib / the serial loop (a parameter) -/
+def evalSearchlightKw {α M Me Θ γ δ : Type}
+    (par : Nat → List (List α × Nat) → (List α × Nat → γ) → List δ)
+    (route : Nat → List α × Nat → Nat) (evalFn : M → List α × Nat → Me → Θ → γ)
+    (dMethod : Me) (dTheta : Θ) (a : EvalArgs M Me Θ) (nJobs : Nat) (R : SlResult α) : List δ :=
+  par nJobs (slTasks R) (fun x => callEval evalFn dMethod dTheta a (route nJobs x) x)
 
 /-! ### the direct RDM of a data matrix (specification used by the correspondence) -/
 section rdm
